@@ -69,12 +69,30 @@ class Exec(ExprMixin, StmtMixin, LoopMixin, ModelMixin):
             return True
         if z3.is_false(c):
             return False
+        # cheap pruning: a branch whose condition contradicts the path condition outright (no axioms needed) is not explored
+        if self._infeasible(cond):
+            self.pc.append(z3.Not(cond))
+            return False
+        if self._infeasible(z3.Not(cond)):
+            self.pc.append(cond)
+            return True
         ch = self.oracle.choose(2)
         if ch == 0:
             self.pc.append(cond)
             return True
         self.pc.append(z3.Not(cond))
         return False
+
+    def _infeasible(self, cond):
+        s = z3.Solver()
+        s.set("timeout", 60)
+        for c in self.pc:
+            s.add(c)
+        for c in self.defs:
+            if not z3.is_quantifier(c):
+                s.add(c)
+        s.add(cond)
+        return s.check() == z3.unsat
 
     def choose(self, n):
         return self.oracle.choose(n) if n > 1 else 0
